@@ -661,14 +661,35 @@ class MethodType(Enum):
 
 
 class RpcError(Exception):
-    """Raised on the client side when the server reports an error."""
+    """Raised on the client side when the server reports an error.
 
-    def __init__(self, error_type: str, error_message: str, remote_traceback: str, *, request_id: str = "") -> None:
+    Attributes:
+        error_type: The remote exception's class name.
+        error_message: The remote error message.
+        remote_traceback: The remote traceback text, or ``""``.
+        request_id: The request correlation ID echoed by the server, or ``""``.
+        error_kind: The stable machine-readable error category the server
+            attached (``vgi_rpc.error_kind``, e.g. ``"method_not_implemented"``),
+            or ``None`` when the error carries none.  The set is open: treat
+            an unrecognised value as an unclassified error.
+
+    """
+
+    def __init__(
+        self,
+        error_type: str,
+        error_message: str,
+        remote_traceback: str,
+        *,
+        request_id: str = "",
+        error_kind: str | None = None,
+    ) -> None:
         """Initialize with error details from the remote side."""
         self.error_type = error_type
         self.error_message = error_message
         self.remote_traceback = remote_traceback
         self.request_id = request_id
+        self.error_kind = error_kind
         super().__init__(f"{error_type}: {error_message}")
 
 
